@@ -115,6 +115,30 @@ def copy_elems(exe, st, d, s, n, node=None):
         st.store(cell, z3.If(inside, src_at(simp(soff + (cc - doff))), old))
 
 
+def _zero_struct(exe, st, p, ct):
+    if isinstance(ct, TStruct):
+        if ct.is_union:
+            q = exe._normalize(p.with_(path=p.path + ('$blob',), ct=ct.field('$blob')))
+            exe.on_store(q, None, st)
+            st.store(q, exe.sem.const(0, ct.field('$blob')))
+            return
+        for fname, ft in ct.fields:
+            _zero_struct(exe, st, p.with_(path=p.path + (fname,), ct=ft), ft)
+    elif isinstance(ct, TArr):
+        for i in range(ct.n):
+            _zero_struct(exe, st, p.with_(idx=p.idx + (i,), ct=ct.of), ct.of)
+    else:
+        q = exe._normalize(p)
+        v = NULLP_(ct) if isinstance(ct, TPtr) else (exe.sem.fconst(0.0, ct) if isinstance(ct, TFloat) else exe.sem.const(0, ct))
+        exe.on_store(q, v, st)
+        st.store(q, v)
+
+
+def NULLP_(ct):
+    from .state import NULLP
+    return NULLP(ct.to)
+
+
 def memset_hook(exe, st, node, args):
     """memset(p, 0, nbytes): typed zero fill."""
     dst, val, nbytes = args
@@ -123,6 +147,20 @@ def memset_hook(exe, st, node, args):
     zero = (z3.is_int_value(sv) or z3.is_bv_value(sv)) and sv.as_long() == 0
     if not zero:
         raise FrontEndError('memset with a non-zero fill value')
+    if isinstance(dst.ct, TStruct) or (dst.obj is not None and dst.obj is not RAW and isinstance(exe.leaf_type(dst.obj, dst.path), TStruct)):
+        # memset(p, 0, k*sizeof(struct)) for a concrete small k: every field of the k elements becomes zero
+        sct = dst.ct if isinstance(dst.ct, TStruct) else exe.leaf_type(dst.obj, dst.path)
+        szs = exe.tu.sizeof(sct)
+        ns = simp(nbytes / szs) if exe.sem.int_mode != 'bv' else simp(z3.UDiv(nbytes, z3.BitVecVal(szs, 64)))
+        cn = _conc_idx((ns,))
+        if cn is None or cn[0] > 16:
+            raise FrontEndError('memset over a symbolic number of structs')
+        exe._check_deref(dst, st, node)
+        for k in range(cn[0]):
+            q = exe.ptr_add(dst.with_(ct=sct), k)
+            exe.bounds_check(q, st, node)
+            _zero_struct(exe, st, q, sct)
+        return dst
     d, dt = _elem_ptr(exe, dst)
     if isinstance(dt, (TStruct, TPtr)):
         raise FrontEndError('memset of struct/pointer arrays')
